@@ -12,6 +12,7 @@ import Pymc.Model.ApiSpec
 import Pymc.Model.Conn
 import Pymc.Model.Failover
 import Pymc.Model.PoolConc
+import Pymc.Model.PoolConcTimed
 import Pymc.Model.Pooled
 import Pymc.Model.PooledCall
 import Pymc.Model.HashCall
@@ -603,6 +604,22 @@ def handlePoolValidate (ws : List String) : Option String := do
     | _ => none)
   pure (poolValidate (PoolConc.init progs mx) [] trace 0)
 
+/-- validate an interleaved trace of the real pool WITH clock values and stamps against the timed micro-step model
+(`Pymc/Model/PoolConcTimed.lean`): `pool.validate.timed max=<n> idle=<timeout> [outside=1] progs=… trace=<tid>:<event>,…`;
+events are those of `pool.validate` plus `tick~<d>` (the clock advances), `clock~<v>` (a call of `_idle_clock()` returned `v`)
+and `stamp~<o>~<v>` (`o._last_used = v`); `outside=1` selects the variant that stamps after leaving the lock. -/
+def handlePoolValidateTimed (ws : List String) : Option String := do
+  let mx ← (← arg ws "max").toNat?
+  let idle ← (← arg ws "idle").toNat?
+  let outside := (arg ws "outside") = some "1"
+  let progs ← PoolConc.parsePrograms (← arg ws "progs")
+  let tr ← arg ws "trace"
+  let trace ← if tr = "-" then some [] else (tr.splitOn ",").mapM fun x =>
+    (match x.splitOn ":" with
+    | [t, e] => t.toNat?.map fun tn => (tn, e.replace "~" " ")
+    | _ => none)
+  pure (PoolConcT.validate outside (PoolConcT.initT progs mx idle) [] trace 0)
+
 /-! ### C09: `pooled cfg=<max>,<idle> evs=<now>:<ok|fail1|fail0|swal1|swal0|rej|quitOk|quitFail>,…` -/
 def handlePooled (ws : List String) : Option String := do
   let c ← natList (← arg ws "cfg")
@@ -1043,6 +1060,7 @@ def handle (ws : List String) : String :=
     | "cserde" :: rest => handleCSerde rest
     | "pool.seq" :: rest => handlePoolSeq rest
     | "pool.validate" :: rest => handlePoolValidate rest
+    | "pool.validate.timed" :: rest => handlePoolValidateTimed rest
     | _ => none
   r.getD "bad-op"
 
